@@ -97,6 +97,9 @@ impl Check for Spending {
     fn components(&self) -> serde_json::Value {
         serde_json::json!({"real": ["examples/multisig-smart-account/spending-limit-policy (from source)", "stellar_accounts::policies::spending_limit::*"], "stub": ["Acct forwarder standing in for the smart account", "Wallet"]})
     }
+    fn clock_step(&self, n: u32) -> Option<Step> {
+        Some(Step::Advance { n })
+    }
     fn probes(&self, _prop: &str) -> std::vec::Vec<&'static str> {
         vec!["probe.history_near_bound", "probe.malformed_context"]
     }
